@@ -341,7 +341,7 @@ class WebProcessorSession(BaseProcessorSession):
             if request.body:
                 request.body.close()
 
-            if response:
+            if response and response.body:
                 response.body.close()
 
             return True, wait_time
